@@ -50,6 +50,21 @@ def invert_events(b, doc, di, step):
     b.add(ev)
 
 
+def gen_norm(toks):
+    from .. import gen
+    return gen.norm_tokens(toks)
+
+
+def norm_step(st):
+    """A step printed by TLC (ToJson) -> harness form (empty attribute records come out as [])."""
+    st = dict(st)
+    if "slice" in st:
+        sl = dict(st["slice"])
+        sl["toks"] = gen_norm(sl["toks"])
+        st["slice"] = sl
+    return st
+
+
 def run(tier: str, seed: int, t0: float) -> int:
     stats = Stats()
     out: list[Violation] = []
@@ -69,9 +84,45 @@ def run(tier: str, seed: int, t0: float) -> int:
     if r.errors:
         raise core.MachineryError("MC_Transform simulate: " + "; ".join(r.errors[:3]) + r.stdout[-1500:])
     stats.add_tlc(r, "M MC_Transform simulate")
-    # ---- T sessions
+    # ---- G: behaviours of the editing machine (tlc -simulate) replayed into Transform, step by step; the
+    # specification's documents and maps are compared after every step (reference) and the library's own
+    # session is observed for the contract (Trace_Transform)
     jobs = []
     tid = 0
+    path = tlc.write_input({"schema": js, "starts": docs, "maxSteps": 6, "marks": [universe.EM], "maxToks": 9}, "gentr")
+    r = tlc.run_tlc("MC_Transform", "Gen_Transform.cfg", env={"PMV_INPUT": path}, workers=1, heap="4g", timeout=3000,
+                    simulate=f"num={2 if not thorough else 60}", depth=7, seed=seed)
+    if r.errors or not r.printed:
+        raise core.MachineryError("Gen_Transform: " + "; ".join(r.errors[:3]) + r.stdout[-1500:])
+    stats.add_tlc(r, "G Gen_Transform simulate")
+    from prosemirror.transform import Transform as _Tr
+    bg = trace.Batch(js)
+    seen_h = set()
+    g_mismatch = 0
+    for e in r.printed:
+        key = json.dumps([e["start"], e["steps"]], sort_keys=True)
+        if key in seen_h:
+            continue
+        seen_h.add(key)
+        tid += 1
+        start = proj.unproj(sch, gen_norm(e["start"]))
+        tr = _Tr(start)
+        bg.add({"ev": "Begin", "tid": tid, "seq": 0, "doc": bg.doc(proj.proj(start)), "ra": proj.pattrs(start.attrs)})
+        for k, st in enumerate(e["steps"]):
+            res = ops.run_op(lambda st=st: tr.step(steps.mkstep(sch, norm_step(st))))
+            sessions.observe(bg, tr, tid, k + 1, "step", {"step": {k2: v2 for k2, v2 in st.items() if k2 != "slice"}}, res)
+            got = proj.proj(tr.doc)
+            if got != gen_norm(e["docs"][k + 1]) or (len(tr.mapping.maps) == k + 1 and
+                                                    [list(tr.mapping.maps[k].ranges[i:i + 3]) for i in range(0, len(tr.mapping.maps[k].ranges), 3)] != [list(x) for x in e["maps"][k]]):
+                g_mismatch += 1
+                stats.drift += 1
+                if len(stats.drift_samples) < 6:
+                    stats.drift_samples.append({"verdict": "drift:SpecBehaviour", "op": "step", "args": json.dumps(st)[:300]})
+                break
+    stats.bounds["spec_behaviours_replayed"] = len(seen_h)
+    stats.bounds["spec_behaviour_mismatches"] = g_mismatch
+    jobs.append(("Trace_Transform", bg, "G+T spec behaviours[s1t]"))
+    # ---- T sessions
     n_docs = 30 if not thorough else 300
     for name in schemas.BUNDLED_PLUS:
         sch, js, pairs = universe.random_docs(name, n_docs, rng)
